@@ -279,7 +279,7 @@ func (a *Adversary) act() {
 		return
 	}
 	byz := a.byzIds[r.Intn(len(a.byzIds))]
-	switch r.Intn(22) {
+	switch r.Intn(24) {
 	case 0: // replay old traffic
 		if len(net.seen) > 0 {
 			s := net.seen[r.Intn(len(net.seen))]
@@ -602,6 +602,13 @@ func (a *Adversary) act() {
 				}
 			}
 			return
+		}
+	case 21, 22: // a vote that attaches a block but carries no prepared proof (a leader that counts it would re-propose that block)
+		for nv := v + 1; nv <= v+2; nv++ {
+			ld := a.leaderOf(nv)
+			if n, ok := net.nodes[string(ld)]; ok {
+				a.inject(n, a.mkVC(a.vcContent(byz, protocol.LEAN_HELIX_VIEW_CHANGE, inst, h, nv, nil), a.newBlock(h, r.Intn(2) == 0)), "vc-block-without-proof")
+			}
 		}
 	default: // mutate one aspect of a message seen on the wire and deliver it
 		a.mutate(target)
